@@ -42,6 +42,12 @@ func checkC01(c *Ctx) {
 	c.tokenIdentity()
 	teardownOrder(c, "C01")
 	c.matchQosMin()
+	// deliveries to one subscriber are whole packets (concurrent publishers), and QoS 2 publishes parked in the
+	// in-flight queue are found again by their id when the queue has grown
+	if r.RingWrite != nil {
+		c.writerCriticalSpan()
+	}
+	c.queueIndexRules()
 	lockBalance(c, func(cl string) bool { return strings.HasPrefix(cl, "topics.") }, "topic-store")
 }
 
